@@ -773,3 +773,54 @@ func retResults(ret *ssa.Return) []ssa.Value {
 	}
 	return out
 }
+
+// nilFact: the guard states that x is nil (isNil) or non-nil: `x == nil` / `x != nil` on either edge.
+func nilFact(g Guard) (x ssa.Value, isNil bool, ok bool) {
+	g = g.norm()
+	bo, isb := g.Cond.(*ssa.BinOp)
+	if !isb || (bo.Op != token.EQL && bo.Op != token.NEQ) {
+		return nil, false, false
+	}
+	switch {
+	case isNilConst(bo.Y):
+		x = bo.X
+	case isNilConst(bo.X):
+		x = bo.Y
+	default:
+		return nil, false, false
+	}
+	return x, (bo.Op == token.EQL) == g.Pol, true
+}
+
+// cmpFact: the guard as a comparison with the edge's polarity folded into the operator.
+func cmpFact(g Guard) (op token.Token, x, y ssa.Value, ok bool) {
+	g = g.norm()
+	bo, isb := g.Cond.(*ssa.BinOp)
+	if !isb {
+		return 0, nil, nil, false
+	}
+	op = bo.Op
+	if !g.Pol {
+		switch op {
+		case token.LSS:
+			op = token.GEQ
+		case token.LEQ:
+			op = token.GTR
+		case token.GTR:
+			op = token.LEQ
+		case token.GEQ:
+			op = token.LSS
+		case token.EQL:
+			op = token.NEQ
+		case token.NEQ:
+			op = token.EQL
+		default:
+			return 0, nil, nil, false
+		}
+	}
+	switch op {
+	case token.LSS, token.LEQ, token.GTR, token.GEQ, token.EQL, token.NEQ:
+		return op, bo.X, bo.Y, true
+	}
+	return 0, nil, nil, false
+}
